@@ -551,6 +551,7 @@ func (r *Recorder) OnUID(v []byte) {
 	e := newEv("OnUID")
 	e.DT = "uid"
 	e.K = hex.EncodeToString(v)
+	e.POK = len(v) == 16
 	r.add(e)
 	if r.Next != nil {
 		r.Next.OnUID(v)
